@@ -63,6 +63,8 @@ pub struct ConnState {
     pub ready_wakers: Vec<Waker>,
     pub created_step: u32,
     pub close_step: Option<u32>,
+    /// position of the close in the global sequence (orders it against wake-ups inside one concurrent step)
+    pub close_seq: Option<u64>,
     pub last_handback_step: Option<u32>,
     pub ever_pooled: bool,
     pub from_dial: usize,
@@ -369,6 +371,7 @@ impl Future for HandshakeFuture {
                         ready_wakers: vec![],
                         created_step: step,
                         close_step: None,
+                        close_seq: None,
                         last_handback_step: None,
                         ever_pooled: false,
                         from_dial: d,
